@@ -9,7 +9,9 @@ GEN_FILES = ["Gen_supergates.v"]
 RULE = ("lint-clean acyclic blackbox-free circuits of <= 22 nodes: fan-out-free trees, nested reconvergent cones (diamonds inside "
         "diamonds over a common stem), 2-5 outputs combining shared blocks, random DAGs with fan-in <= 2 (limit_fanin is then the "
         "identity), and a class with gates of 3-5 operands (the limited circuit is recorded by calling limit_fanin(c, 2) in the same "
-        "process); each circuit also in the single-output super-circuit form (<= 6 inputs). Non-trivial = at least 2 gates and a "
+        "process), every multi-operand gate type with 3, 4 and 5 operands, and a name-stress class (inputs a..h, gates m, n, ...; an "
+        "inverter of m = and(a, b) is named a_b, so different node sets can have equal sorted-and-joined names); each circuit also in "
+        "the single-output super-circuit form (<= 6 inputs). Non-trivial = at least 2 gates and a "
         "result of at least 2 supergates or a reconvergent stem inside one; distinct = canonical input hash")
 EXPLANATION = ("verified checkers (shape, cover, order, independence: soundness proved for all inputs) decide the property on the list the "
                "implementation returned; the mirrored model (dominators by definition) is compared with it as a set; super-circuit "
@@ -173,7 +175,7 @@ LEVEL_NOTE = ("The model's searches and queues run on fuel and their results are
               "searched set, closure/route/depth of every grown set, distinct roots, frontier exhausted); the model has no value (OutOfFuel) if a "
               "check fails, which the correspondence run shows never happens; the proofs use only the checked facts and the leastness of the "
               "searched sets. Trusted: Coq kernel + vm_compute, std++, gen/plugins/supergates.py (statement shapes), harness canonicalisation and the recorded limit_fanin(c, 2) result (made by a second "
-              "call in the same process; plausibility-checked in Coq: interface, bound 2, identity when nothing exceeds the bound). "
+              "call in the same process; checked in Coq: interface, bound 2, identity when nothing exceeds the bound, and equivalence with c on all input valuations). "
               "networkx.immediate_dominators is external: the model replaces it by the definition of dominance (unreachable from the output "
               "once the dominator is removed) and the tie is the set comparison of the results. Base/Api.v fill_blackbox/add_blackbox are the "
               "C07-validated API model. List order is never compared (sets of Circuit objects iterate by id); it is judged by check_topo.")
